@@ -106,14 +106,37 @@ def gen_value(rng, name):
 ADDLIKE = ("add", "upd", "group", "addbad")
 
 
+def flat_group(g):
+    """document indices of a (possibly nested) group, in the order they are added"""
+    out = []
+    for m in g:
+        if isinstance(m, list):
+            out.extend(flat_group(m))
+        else:
+            out.append(m)
+    return out
+
+
+def all_groups(g):
+    """the group and every group nested in it, each flattened: the members of each must stay adjacent and in order"""
+    out = [flat_group(g)]
+    for m in g:
+        if isinstance(m, list):
+            out.extend(all_groups(m))
+    return out
+
+
 def gen_world(rng, nsessions=None, maxops=None, disciplined=True, schema_changes=True, uniq=None,
-              merge_kinds=None, allow_clear=True, raw_docnums=True, groups=False, normalized=False, malformed=True):
+              merge_kinds=None, allow_clear=True, raw_docnums=True, groups=False, normalized=False, malformed=True,
+              nested=False, group_p=0.0):
     """A world: {"fields": initial field names, "docs": [...], "sessions": [...]}.
 
     Abstract ops (layout independent):
       ["add", i] ["upd", i] ["delkey", sid] ["undelkey", sid] ["delterm", field, text]
       ["delq", Q] ["addf", name] ["remf", name] ["delnum", n] (raw, layout dependent)
-      ["group", [i, ...]] (documents added inside start_group/end_group)
+      ["group", [i, ...]] (documents added inside start_group/end_group; with nested=True a member may itself
+                           be a list = a group opened while the enclosing one is still open, to any depth;
+                           group_p = extra probability mass of a group op, drawn before the ordinary choice)
     Session end: ["commit", kind] | ["cancel"] | ["raise"] (exception inside `with`).
     """
     if uniq is None:
@@ -165,6 +188,15 @@ def gen_world(rng, nsessions=None, maxops=None, disciplined=True, schema_changes
     def keys_of(d):
         return [(n, d["f"][n]) for n in ("uk", "un") if n in d["f"] and n in cur_fields]
 
+    def new_group(depth):
+        g = []
+        for _ in range(rng.choice([2, 3, 4]) if depth == 0 else rng.choice([1, 2, 3])):
+            if nested and depth < 2 and rng.random() < (0.45 if depth == 0 else 0.25):
+                g.append(new_group(depth + 1))
+            else:
+                g.append(new_doc(use_key=False)["sid"])
+        return g
+
     for si in range(nsessions):
         ops = []
         added_any = False
@@ -184,6 +216,10 @@ def gen_world(rng, nsessions=None, maxops=None, disciplined=True, schema_changes
                     ops.append(["remf", name])
                     cur_fields = [f for f in cur_fields if f != name]
         for _ in range(nops):
+            if groups and group_p and rng.random() < group_p:
+                ops.append(["group", new_group(0)])
+                added_any = True
+                continue
             r = rng.random()
             livekeys = [k for k in committed if k not in pending_del]
             if r < 0.45 or not committed:
@@ -236,10 +272,13 @@ def gen_world(rng, nsessions=None, maxops=None, disciplined=True, schema_changes
                     ops.append(["delkey", k2])
                     pending_del.add(k2)
             elif groups and r < 0.97:
-                g = []
-                for _ in range(rng.choice([2, 3, 4])):
-                    d = new_doc(use_key=False)
-                    g.append(d["sid"])
+                if nested:
+                    g = new_group(0)
+                else:
+                    g = []
+                    for _ in range(rng.choice([2, 3, 4])):
+                        d = new_doc(use_key=False)
+                        g.append(d["sid"])
                 ops.append(["group", g])
                 added_any = True
             else:
@@ -265,7 +304,7 @@ def gen_world(rng, nsessions=None, maxops=None, disciplined=True, schema_changes
                 if op[0] in ("add", "upd"):
                     committed[op[1]] = op[1]
                 elif op[0] == "group":
-                    for i in op[1]:
+                    for i in flat_group(op[1]):
                         committed[i] = i
         else:
             # a cancelled session's schema changes are dropped
@@ -961,14 +1000,19 @@ def apply_op(w, world, op, concrete, results, open_searcher, delkeys=None):
             concrete.append(["add", op[1]])
             results.append("ok")
         elif k == "group":
-            w.start_group()
-            concrete.append(["gstart"])
-            for i in op[1]:
-                w.add_document(**doc_kwargs(world["docs"][i]))
-                concrete.append(["add", i])
-                results.append("ok")
-            w.end_group()
-            concrete.append(["gend"])
+            def run_group(g):
+                w.start_group()
+                concrete.append(["gstart"])
+                for i in g:
+                    if isinstance(i, list):
+                        run_group(i)
+                        continue
+                    w.add_document(**doc_kwargs(world["docs"][i]))
+                    concrete.append(["add", i])
+                    results.append("ok")
+                w.end_group()
+                concrete.append(["gend"])
+            run_group(op[1])
         elif k == "upd":
             concrete.append(["upd", op[1]])
             w.update_document(**doc_kwargs(world["docs"][op[1]]))
@@ -1209,7 +1253,7 @@ def live_key_order(layout):
 
 
 def groups_of(world):
-    return [op[1] for ops, _ in world["sessions"] for op in ops if op[0] == "group"]
+    return [g for ops, _ in world["sessions"] for op in ops if op[0] == "group" for g in all_groups(op[1])]
 
 
 def group_violation(world, layout):
